@@ -218,27 +218,36 @@ mod verif_c05_headers {
         kani::cover!(tl == 4, "C05.header.initial.reach_token_4");
     }
 
-    /// Initial header with a 63-byte token: the largest Token Length that fits a 1-byte varint.
+    /// Initial header, token of 0..=70 bytes -- across the 63/64 boundary of the Token Length varint the
+    /// property statement singles out ("no test uses a token of 64 bytes or more"): the size announced by
+    /// `size()` (what PacketWriter::new_long reserves) equals the bytes `put_header` writes, and the Token
+    /// Length field on the wire is the RFC 9000 §16 encoding of the length. (Encode side only; decoding a
+    /// token of this length is be_initial = length_data(be_varint), see c03_packet_decode.)
     #[kani::proof]
-    #[kani::unwind(9)]
-    fn initial_token_63_contract() {
-        //   "C05.header.initial.written_eq_announced_size" "C05.header.initial.size_is_7_plus_cids_plus_token_field"
-        //   "C05.header.initial.roundtrip_type" "C05.header.initial.roundtrip_cids_equal"
-        //   "C05.header.initial.roundtrip_token_equal" "C05.header.initial.roundtrip_consumes_exactly_written"
-        let raw: [u8; 63] = kani::any();
-        initial_body::<82>(fixed_cid::<8>(), fixed_cid::<0>(), raw.to_vec());
-    }
-
-    /// Initial header with a 64-byte token: the smallest Token Length that needs a 2-byte varint
-    /// (the case the property statement singles out: "no test uses a token of 64 bytes or more").
-    #[kani::proof]
-    #[kani::unwind(9)]
-    fn initial_token_64_contract() {
-        //   "C05.header.initial.written_eq_announced_size" "C05.header.initial.size_is_7_plus_cids_plus_token_field"
-        //   "C05.header.initial.roundtrip_type" "C05.header.initial.roundtrip_cids_equal"
-        //   "C05.header.initial.roundtrip_token_equal" "C05.header.initial.roundtrip_consumes_exactly_written"
-        let raw: [u8; 64] = kani::any();
-        initial_body::<84>(fixed_cid::<8>(), fixed_cid::<0>(), raw.to_vec());
+    #[kani::unwind(3)]
+    fn initial_size_token_boundary_contract() {
+        let (dcid, scid) = (fixed_cid::<8>(), fixed_cid::<0>());
+        let token = any_token::<70>();
+        let tl = token.len();
+        let h = LongHeaderBuilder::with_cid(dcid, scid).initial(token);
+        let announced = h.size();
+        let mut buf = [0u8; 90];
+        let written = {
+            let mut w = &mut buf[..89];
+            w.put_header(&h);
+            89 - w.len()
+        };
+        assert!(written == announced, "C05.header.initial.token_boundary.written_eq_announced_size");
+        assert!(written == 7 + 8 + varint_size(tl) + tl, "C05.header.initial.token_boundary.size_is_header_plus_token_field");
+        // Token Length field at offset 1 + 4 + 1 + 8 + 1 = 15
+        if tl < 64 {
+            assert!(buf[15] as usize == tl, "C05.header.initial.token_boundary.length_field_1_byte_below_64");
+        } else {
+            assert!(buf[15] == 0x40 && buf[16] as usize == tl, "C05.header.initial.token_boundary.length_field_2_bytes_from_64");
+        }
+        kani::cover!(tl == 63, "C05.header.initial.token_boundary.reach_63");
+        kani::cover!(tl == 64, "C05.header.initial.token_boundary.reach_64");
+        kani::cover!(tl == 70, "C05.header.initial.token_boundary.reach_70");
     }
 
     /// Retry header: token 0..=4 bytes, any integrity tag, ids 8 and 5 bytes (no announced size: a Retry is
